@@ -25,6 +25,10 @@ package sonic
 
 // --- CodecConn -------------------------------------------------------------------------------
 
+// structural part of the connection invariant, and the full one with the size bound under
+// which the arithmetic of the buffers is exact (buffers below 2^46 bytes)
+//@ pred ccInvS(c *CodecConn) =
+//@   c.src != nil && c.dst != nil && c.src != c.dst && bbInv(c.src) && bbInv(c.dst) && c.codec != nil && c.stream != nil
 //@ pred ccInv(c *CodecConn) =
 //@   c.src != nil && c.dst != nil && c.src != c.dst && bbInv(c.src) && bbInv(c.dst) &&
 //@   cap(c.src.data) <= 1<<46 && cap(c.dst.data) <= 1<<46 && c.codec != nil && c.stream != nil
@@ -36,6 +40,6 @@ package sonic
 //@   // after a write completes successfully nothing of the item is left behind
 //@   ensures [nothing-left] err == nil ==> c.dst.wi == c.dst.si
 //@   ensures [storage] (ptr(c.dst.data) == old(ptr(c.dst.data)) && cap(c.dst.data) == old(cap(c.dst.data))) || fresh(c.dst.data)
-//@   ensures [conn] ccInv(c)
+//@   ensures [conn] ccInvS(c)
 //@   // only the write buffer changes (the transport is assumed not to touch our heap)
 //@   modifies fields(c.dst), memcap(c.dst.data)
